@@ -399,6 +399,9 @@ def main(prop, argv=None):
 
     # ---- evidence -----------------------------------------------------------
     wall = time.time() - ctx.t0
+    pl = sys.modules.get('harness.pipelib')
+    if pl is not None and getattr(pl, 'ISOLATED_RERUNS', [0])[0]:
+        ctx.stats['isolated_runs_repeated_after_a_timeout'] = pl.ISOLATED_RERUNS[0]
     cov = dict(
         obligations=len(prop.THEOREMS),
         discharged=discharged,
